@@ -67,6 +67,9 @@ M = [
     ("c15_clear_keeps_read_idx", "C15", "transactron/lib/fifo.py",
      "            m.d.sync += read_idx.eq(0)\n", "            pass\n"),
     ("c17_pipe_write_ready", "C17", "transactron/lib/connectors.py", None, None),
+    ("c40_arrayproxy_union", "C40", "transactron/utils/assign.py",
+     "return set.intersection(*[set(cast(data.View, el).shape().members.keys()) for el in elems])",
+     "return set.union(*[set(cast(data.View, el).shape().members.keys()) for el in elems])"),
 ]
 
 
